@@ -199,6 +199,20 @@ pub mod icmp {
         };
         mk(a) == mk(b)
     }
+
+    /// Is a waiter stored under key `a` found by a lookup with key `b` (the reply-waiter table is
+    /// a `HashMap` keyed by `Echo`)?
+    pub fn echo_waiter_found(a: (u16, u16, &[u8]), b: (u16, u16, &[u8])) -> bool {
+        let mk = |x: (u16, u16, &[u8])| icmp_utils::Echo {
+            code: 0,
+            identifier: x.0,
+            sequence_number: x.1,
+            data: Bytes::copy_from_slice(x.2),
+        };
+        let mut table = std::collections::HashMap::new();
+        table.insert(mk(a), ());
+        table.contains_key(&mk(b))
+    }
 }
 
 /// The real `IcmpForwarder` on real raw sockets (needs CAP_NET_RAW; loopback is enough).
